@@ -318,8 +318,13 @@ inline History gen_multi(Chooser& ch, const GenOpts& o) {
   if (ch.next() % 4 == 3) h.reenter = ch.range(1, 6);   // nested calls: another session acts from inside a callback
   size_t total = 0;
   for (auto& s : h.scripts) total += s.steps.size() + 2;
-  uint32_t mode = ch.next() % 4;
+  uint32_t mode = ch.next() % 5;
   uint64_t is = ch.seed64();
+  if (mode == 4) {  // session 0 makes progress and stays open, the others live their whole life, then session 0 goes on
+    size_t s0 = h.scripts[0].steps.size(); size_t part = 1 + (s0 > 1 ? is % s0 : 0);
+    for (size_t i = 0; i < 1 + part; i++) h.inter.push_back(0);
+    for (uint32_t j = 1; j < ns; j++) for (size_t i = 0; i < h.scripts[j].steps.size() + 2; i++) h.inter.push_back(j);
+  } else
   if (mode == 0) { for (size_t i = 0; i < total; i++) h.inter.push_back((uint32_t)(i % ns)); }              // round robin
   else if (mode == 1) { uint64_t x = is; for (size_t i = 0; i < total * 2; i++) h.inter.push_back((uint32_t)(splitmix(x) % ns)); }
   else if (mode == 2) {  // session 0 create, all of session 1.., then session 0
